@@ -76,4 +76,22 @@ impl DFA {
     { unimplemented!() }
 }
 
+
+/// Stand-in: DFA::minimize (do_minimize) is not under contract here: nothing is assumed about the
+/// automaton it returns (which automaton a within-word regex gets is decided only by the bounded
+/// pipeline stand-in).
+impl DFA {
+    #[verifier::external_body]
+    pub fn minimize(self) -> (r: DFA)
+    { unimplemented!() }
+}
+
+/// derived Clone of regex::Regex returns an equal value (the follow cache is cloned with it)
+impl Clone for Regex {
+    #[verifier::external_body]
+    fn clone(&self) -> (r: Regex)
+        ensures r == *self
+    { unimplemented!() }
+}
+
 } // verus!
